@@ -5,7 +5,7 @@ use crate::model::RefGraph;
 use crate::obs::{guarded, observe, Caught};
 use crate::plan::{Loss, RFault, Step, WFault};
 use crate::rng::Rng;
-use crate::view::{path_name, LinkKind, OnDisk, Origin, SavedState};
+use crate::view::{path_name, path_os, LinkKind, OnDisk, Origin, SavedState};
 use sodg::{Hex, Sodg};
 use std::path::Path;
 use std::rc::Rc;
@@ -267,6 +267,8 @@ impl<const N: usize> Exec<N> {
                     let g = self.gs[*inst].as_mut().unwrap();
                     let r = guarded(|| {
                         for k in 0..(*times - 1) {
+                            // every call is progress: the watchdog is after a call that does not end
+                            crate::run::HEARTBEAT.fetch_add(1, std::sync::atomic::Ordering::Relaxed);
                             match kind {
                                 0 => {
                                     let mut d = (ctr + k as u64).to_le_bytes().to_vec();
@@ -400,6 +402,7 @@ impl<const N: usize> Exec<N> {
                 let g = self.gs[*src].as_ref().unwrap();
                 let r = guarded(|| {
                     for _ in 0..*times {
+                        crate::run::HEARTBEAT.fetch_add(1, std::sync::atomic::Ordering::Relaxed);
                         drop(g.slice(v));
                     }
                 });
@@ -461,6 +464,37 @@ impl<const N: usize> Exec<N> {
                         _ => clauses::C10,
                     };
                     return fail("clone.sweep-differs", owners, format!("right after clone_from(): {d}"));
+                }
+                // what the two graphs hand out, value and encoding (both are public: `Hex` is an
+                // enum with public variants), read on a copy of each so that nothing is consumed
+                {
+                    let keys = a.keys.clone();
+                    let (sg, dg) = (self.gs[*src].as_ref().unwrap(), self.gs[*dst].as_ref().unwrap());
+                    let r = guarded(|| {
+                        let (mut x, mut y) = (sg.clone(), dg.clone());
+                        let mut bad = None;
+                        for v in keys {
+                            if !x.keys().contains(&v) || !y.keys().contains(&v) {
+                                continue;
+                            }
+                            let (p, q) = (x.data(v), y.data(v));
+                            let same = match (&p, &q) {
+                                (None, None) => true,
+                                (Some(Hex::Bytes(..)), Some(Hex::Bytes(..))) | (Some(Hex::Vector(_)), Some(Hex::Vector(_))) => p.as_ref().map(Hex::bytes) == q.as_ref().map(Hex::bytes),
+                                _ => false,
+                            };
+                            if !same && bad.is_none() {
+                                bad = Some(format!("data(ν{v}) of the source is {p:?}, of the copy {q:?}"));
+                            }
+                        }
+                        bad
+                    });
+                    self.stats.bump("probe.clone_from_answers_compared");
+                    match r {
+                        Ok(None) => {}
+                        Ok(Some(d)) => return fail("clone.answer-differs", &["C10", "C03"], format!("right after clone_from(): {d}")),
+                        Err(c) => return fail("panic.in-contract-call", clauses::PANIC_CLONE, format!("reading a copy made by clone_from() panicked: {c:?}")),
+                    }
                 }
                 {
                     let x = guarded(|| self.gs[*src].as_ref().unwrap().verif_snapshot()).ok();
@@ -634,7 +668,8 @@ impl<const N: usize> Exec<N> {
         let before: Option<Vec<u8>> = self.disk.borrow().content(&name).map(<[u8]>::to_vec);
         self.disk.borrow_mut().arm_write(fault);
         let g = self.gs[i].as_ref().unwrap();
-        let r = guarded(|| g.save(Path::new(&name)));
+        let os_path = path_os(path);
+        let r = guarded(|| g.save(&os_path));
         let (fired, accepted, recreated) = {
             let mut d = self.disk.borrow_mut();
             let x = (d.fired, d.accepted, d.touched.contains(&name));
@@ -775,7 +810,8 @@ impl<const N: usize> Exec<N> {
         }
         let name = path_name(path);
         self.disk.borrow_mut().arm_read(fault);
-        let r = guarded(|| Sodg::<N>::load(Path::new(&name)));
+        let os_path = path_os(path);
+        let r = guarded(|| Sodg::<N>::load(&os_path));
         let fired = {
             let mut d = self.disk.borrow_mut();
             let f = d.fired;
@@ -1101,6 +1137,7 @@ impl<const N: usize> Exec<N> {
         // leave it (whatever else save() keeps next to the file stays where it is)
         let original = self.disk.borrow().files.get(&name).cloned().unwrap();
         let scratch = name.as_str();
+        let os_path = path_os(path);
         let cuts: Vec<usize> = if sample.is_empty() {
             (0..image.len()).collect()
         } else {
@@ -1117,8 +1154,9 @@ impl<const N: usize> Exec<N> {
         }
         self.stats.max("max.image_bytes", image.len() as u64);
         for k in cuts {
+            crate::run::HEARTBEAT.fetch_add(1, std::sync::atomic::Ordering::Relaxed);
             self.disk.borrow_mut().set_content(scratch, image[..k].to_vec());
-            let r = guarded(|| Sodg::<N>::load(Path::new(scratch)));
+            let r = guarded(|| Sodg::<N>::load(&os_path));
             self.stats.bump("cut.points");
             if !matches!(r, Ok(Err(_))) {
                 self.disk.borrow_mut().files.insert(name.clone(), original.clone());
